@@ -274,7 +274,7 @@ func TestCheck(t *testing.T) {
 	}
 	mixed := func(rng *rand.Rand) (ref.Pos, bool) { return gen.AnyPos(rng), true }
 	const chunk = 100
-	for _, s := range []src{{"dense", gen.Dense, r.N(160000, 1600000)}, {"adv", gen.Adv, r.N(80000, 800000)}, {"sparse", gen.Sparse, r.N(40000, 400000)}, {"mixed", mixed, r.N(80000, 800000)}} {
+	for _, s := range []src{{"dense", gen.Dense, r.N(160000, 8000000)}, {"adv", gen.Adv, r.N(80000, 4000000)}, {"sparse", gen.Sparse, r.N(40000, 2000000)}, {"mixed", mixed, r.N(80000, 4000000)}} {
 		ev.Parallel(s.n/chunk, func(wk, i int) {
 			lc := lcs[wk]
 			rng := r.RNG("c18-"+s.name, i)
